@@ -3,46 +3,165 @@ import ChfVerif.Props.C19
   C18 — Diameter connections and background tasks stay bounded as requests accumulate.
 
   In the client machine of Model/DiamClient.lean a connection is open from the `start` of its request to the
-  `ret` that runs the deferred Close; every open connection carries its reader and watchdog tasks, and a
-  handler blocked on a channel is a task as well.  For the configuration of the working tree (`C19.cfg_good`,
-  by decide over the regenerated facts) and every scheduler, at most one connection is open per subscriber and
-  peer at any time, none once the request has returned, and no handler task is ever left behind — however
-  many requests have been processed (the bound does not depend on the length of the history).
+  `ret` that runs the deferred Close.  Every open connection has its reader task and, when the sm.Client is built
+  with `EnableWatchdog`, a watchdog task; a handler blocked on a channel is a task as well; and a watchdog whose
+  connection was closed before go-diameter's close notification got armed (no message read since the handshake:
+  exactly the request that timed out) is never told and stays for ever (`WSt.orphans`, see the model).
+
+  For the configuration of the working tree (`C19.cfg_good` and `cfg_quiet`, by decide over the regenerated facts)
+  and every scheduler, at most one connection is open per subscriber and peer at any time, none once the request
+  has returned, and no handler or watchdog task is ever left behind — however many requests have been processed
+  (the bound does not depend on the length of the history).  `C18_watchdog_leak` is the converse: with the
+  watchdog enabled, n requests that time out leave n watchdog tasks behind, for every n.
 -/
 namespace Chf.Props.C18
 open Chf.DiamClient Chf.Props.C19
 
-/-- background tasks of one machine: reader + watchdog per open connection, plus blocked handlers -/
-def tasks (s : St) : Nat := 2 * s.conns.length + s.blocked
+/-- the working tree builds both sm.Clients without the per-connection watchdog -/
+theorem cfg_quiet : Chf.Gen.abmfClient.watchdog = false ∧ Chf.Gen.ratingClient.watchdog = false := by decide
 
-theorem C18_bounded (cfg : Cfg) (hg : cfg.good = true) (evs : List Ev) :
-    (run cfg {} evs).conns.length ≤ 1 ∧ tasks (run cfg {} evs) ≤ 2 := by
+/-- the ghost state does not influence the machine -/
+theorem stepW_st (cfg : Cfg) (w : WSt) (ev : Ev) : (stepW cfg w ev).st = step cfg w.st ev := by
+  unfold stepW
+  cases ev with
+  | start => rfl
+  | timeout => rfl
+  | answer j => simp only; split <;> rfl
+  | ret =>
+    simp only
+    split
+    · split <;> rfl
+    · rfl
+
+theorem runW_st (cfg : Cfg) (evs : List Ev) : ∀ w, (runW cfg w evs).st = run cfg w.st evs := by
+  induction evs with
+  | nil => intro w; rfl
+  | cons e r ih => intro w; simp only [runW, run, List.foldl_cons] at *; rw [ih, stepW_st]
+
+/-- without the watchdog no task can be orphaned -/
+theorem stepW_orphans (cfg : Cfg) (hw : cfg.watchdog = false) (w : WSt) (ev : Ev) :
+    (stepW cfg w ev).orphans = w.orphans := by
+  unfold stepW
+  cases ev with
+  | start => rfl
+  | timeout => rfl
+  | answer j => simp only; split <;> rfl
+  | ret =>
+    simp only
+    split
+    · split
+      · simp [hw]
+      · rfl
+    · rfl
+
+theorem runW_orphans (cfg : Cfg) (hw : cfg.watchdog = false) (evs : List Ev) :
+    ∀ w, (runW cfg w evs).orphans = w.orphans := by
+  induction evs with
+  | nil => intro w; rfl
+  | cons e r ih => intro w; simp only [runW, List.foldl_cons] at *; rw [ih, stepW_orphans cfg hw]
+
+theorem C18_bounded (cfg : Cfg) (hg : cfg.good = true) (hw : cfg.watchdog = false) (evs : List Ev) :
+    (runW cfg {} evs).st.conns.length ≤ 1 ∧ tasks cfg (runW cfg {} evs) ≤ 1 := by
   have h := reachable_inv cfg hg evs
   have hc := h.connsShort
   have hb := h.notBlocked
+  have ho := runW_orphans cfg hw evs {}
+  have hs := runW_st cfg evs {}
   unfold tasks
+  rw [hs, ho, hw]
+  simp only [Bool.false_eq_true, if_false, Nat.one_mul]
+  show (run cfg {} evs).conns.length ≤ 1 ∧ (run cfg {} evs).conns.length + (run cfg {} evs).blocked + 0 ≤ 1
   split at hc <;> omega
 
 /-- a completed request leaves no connection, watchdog or handler task behind -/
-theorem C18_none_left (cfg : Cfg) (hg : cfg.good = true) (evs : List Ev)
-    (hidle : (run cfg {} evs).cur = none ∧ (run cfg {} evs).returning = none) :
-    (run cfg {} evs).conns = [] ∧ tasks (run cfg {} evs) = 0 := by
+theorem C18_none_left (cfg : Cfg) (hg : cfg.good = true) (hw : cfg.watchdog = false) (evs : List Ev)
+    (hidle : (runW cfg {} evs).st.cur = none ∧ (runW cfg {} evs).st.returning = none) :
+    (runW cfg {} evs).st.conns = [] ∧ tasks cfg (runW cfg {} evs) = 0 := by
   have h := reachable_inv cfg hg evs
+  have hs := runW_st cfg evs {}
+  have ho := runW_orphans cfg hw evs {}
+  rw [hs] at hidle ⊢
   have hc := h.connsShort
+  change (run cfg {} evs).cur = none ∧ (run cfg {} evs).returning = none at hidle
   simp only [hidle.1, hidle.2, Option.isSome_none, Bool.or_self, Bool.false_eq_true, if_false, Nat.le_zero,
     List.length_eq_zero_iff] at hc
-  simp [tasks, hc, h.notBlocked]
+  refine ⟨hc, ?_⟩
+  unfold tasks
+  rw [hs, ho]
+  show _ * (run cfg {} evs).conns.length + (run cfg {} evs).blocked + 0 = 0
+  simp [hc, h.notBlocked]
 
 /-- both client functions of the working tree -/
 theorem C18 (evs : List Ev) :
-    (run Chf.Gen.abmfClient {} evs).conns.length ≤ 1 ∧ (run Chf.Gen.ratingClient {} evs).conns.length ≤ 1 :=
-  ⟨(C18_bounded _ cfg_good.1 evs).1, (C18_bounded _ cfg_good.2 evs).1⟩
+    ((runW Chf.Gen.abmfClient {} evs).st.conns.length ≤ 1 ∧ tasks Chf.Gen.abmfClient (runW Chf.Gen.abmfClient {} evs) ≤ 1) ∧
+    ((runW Chf.Gen.ratingClient {} evs).st.conns.length ≤ 1 ∧ tasks Chf.Gen.ratingClient (runW Chf.Gen.ratingClient {} evs) ≤ 1) :=
+  ⟨C18_bounded _ cfg_good.1 cfg_quiet.1 evs, C18_bounded _ cfg_good.2 cfg_quiet.2 evs⟩
 
+/-! ### the watchdog leak (the code before the `EnableWatchdog` repair) -/
+
+/-- one request that times out and returns -/
+def timedOut : List Ev := [.start, .timeout, .ret]
+
+structure Quiet (w : WSt) : Prop where
+  cur : w.st.cur = none
+  returning : w.st.returning = none
+  wedged : w.st.wedged = false
+  blocked : w.st.blocked = 0
+  buf : w.st.buf = []
+  conns : w.st.conns = []
+  armed : w.armed = []
+
+theorem timedOut_leaks (cfg : Cfg) (hg : cfg.good = true) (hw : cfg.watchdog = true) (w : WSt) (hq : Quiet w) :
+    Quiet (runW cfg w timedOut) ∧ (runW cfg w timedOut).orphans = w.orphans + 1 := by
+  have hc : cfg.closesConn = true := by simp [Cfg.good] at hg; exact hg.1.1.1.1
+  obtain ⟨st, armed, orphans⟩ := w
+  obtain ⟨h1, h2, h3, h4, h5, h6, h7⟩ := hq
+  simp only at h1 h2 h3 h4 h5 h6 h7
+  subst h7
+  simp only [runW, timedOut, List.foldl_cons, List.foldl_nil, stepW, step, h1, h2, h3, h4, h5, h6, hc, hw,
+    Option.isSome_none, Bool.or_self, Bool.false_eq_true, if_false, Nat.lt_irrefl, gt_iff_lt, drain, takeMsg,
+    List.find?_nil, if_true, List.filter_cons, List.filter_nil, bne_self_eq_false, List.contains_nil,
+    Bool.not_false, Bool.and_self]
+  refine ⟨⟨?_, ?_, ?_, ?_, ?_, ?_, ?_⟩, ?_⟩ <;> first | rfl | trivial
+
+/-- with the watchdog enabled, n requests that time out leave n watchdog tasks behind: no bound -/
+theorem C18_watchdog_leak (cfg : Cfg) (hg : cfg.good = true) (hw : cfg.watchdog = true) (n : Nat) :
+    (runW cfg {} (List.replicate n timedOut).flatten).orphans = n ∧
+    tasks cfg (runW cfg {} (List.replicate n timedOut).flatten) = n := by
+  have key : ∀ n (w : WSt), Quiet w →
+      Quiet (runW cfg w (List.replicate n timedOut).flatten) ∧
+      (runW cfg w (List.replicate n timedOut).flatten).orphans = w.orphans + n := by
+    intro n
+    induction n with
+    | zero => intro w hq; exact ⟨hq, rfl⟩
+    | succ m ih =>
+      intro w hq
+      have h1 := timedOut_leaks cfg hg hw w hq
+      have h2 := ih _ h1.1
+      have e : runW cfg w (List.replicate (m + 1) timedOut).flatten
+          = runW cfg (runW cfg w timedOut) (List.replicate m timedOut).flatten := by
+        simp [runW, List.replicate_succ, List.foldl_append]
+      rw [e]
+      refine ⟨h2.1, ?_⟩
+      rw [h2.2, h1.2]; omega
+  have h := key n {} ⟨rfl, rfl, rfl, rfl, rfl, rfl, rfl⟩
+  refine ⟨by simpa using h.2, ?_⟩
+  unfold tasks
+  rw [h.1.conns, h.1.blocked, h.2]
+  simp
+
+/-- the machine of the code before the repair: three time-outs, three watchdogs left -/
+def withWatchdog : Cfg := { Chf.Gen.abmfClient with watchdog := true }
+example : (runW withWatchdog {} [.start, .timeout, .ret, .start, .timeout, .ret, .start, .timeout, .ret]).orphans = 3 := by
+  decide
+/-- an answered request arms the close notification: nothing is left -/
+example : (runW withWatchdog {} [.start, .answer 1, .ret, .start, .answer 2, .ret]).orphans = 0 := by decide
 /-- without the deferred Close every request leaves its connection open (the code before 396fba5) -/
 example : (run before {} [.start, .answer 1, .ret, .start, .answer 2, .ret, .start, .answer 3, .ret]).conns.length = 3 := by
   decide
-/-- non-vacuity: the same history on the working tree's machine -/
-example : (run Chf.Gen.abmfClient {} [.start, .answer 1, .ret, .start, .answer 2, .ret, .start, .answer 3, .ret]).conns = [] := by
+/-- non-vacuity: the same histories on the working tree's machine -/
+example : (runW Chf.Gen.abmfClient {} [.start, .answer 1, .ret, .start, .timeout, .ret, .start, .answer 3, .ret]).st.conns = []
+    ∧ tasks Chf.Gen.abmfClient (runW Chf.Gen.abmfClient {} [.start, .answer 1, .ret, .start, .timeout, .ret]) = 0 := by
   decide
 
 end Chf.Props.C18
